@@ -272,8 +272,8 @@ impl LinearConstraintSystem {
                                 var, const_val, coeff, const_val, -coeff * const_val);
                         }
                     } else if let Some(&lp_idx) = var_to_lp_index.get(&var) {
-                        // This is a decision variable
-                        row[lp_idx] = coeff;
+                        // This is a decision variable (it may occur more than once in a row: x + y = x)
+                        row[lp_idx] += coeff;
                     }
                 }
                 
